@@ -11,7 +11,7 @@ PID = "C26"
 LEVEL = "fault_enumeration"
 RULE = ("response sequences: exhaustive over an alphabet of 5 transient and 10 terminal responses, every sequence "
         "of up to 6 attempts (k transient then one terminal, k=0..5, and all 6-transient sequences), cycled over "
-        "the four verbs, plus hypothesis-generated bodies (random error ids/kinds/list shapes/content types/response headers such as Retry-After/"
+        "the four verbs and node objects configured with one address or a list of 1..3 addresses, plus hypothesis-generated bodies (random error ids/kinds/list shapes/content types/response headers such as Retry-After/"
         "statuses). Oracle = reference retry policy (calls made, same url, sleeps count/non-decreasing/<=2.0, "
         "returned JSON or RpcError carrying the last response's error); responses the statement leaves open "
         "(mixed temporary/permanent lists) branch the reference both ways. Non-trivial: sequence contains >=1 "
@@ -112,7 +112,9 @@ def oracle(case):
         return fake_http.from_spec(seq[i] if i < len(seq) else over)
 
     script = fake_http.Script(responder)
-    node = RpcNode("http://n0:8732")
+    # a node object may be configured with one address or with a list of addresses (only the first one is used)
+    node = RpcNode({0: "http://n0:8732", 1: ["http://n0:8732"], 2: ["http://n0:8732", "http://n1:8732"],
+                    3: ["http://n0:8732", "http://n1:8732", "http://n2:8732"]}[case.get("uris", 0)])
     result = exc = None
     with fake_http.patched(script):
         try:
@@ -233,8 +235,8 @@ def gen_specs():
         if s["status"] == 200 and ("json" not in s):
             return {"status": 200, "ctype": J, "json": {"t": s["text"]}}
         return s
-    return st.builds(lambda seq, v: {"seq": [fix200(s) for s in seq], "verb": v},
-                     st.lists(spec, min_size=1, max_size=7), st.sampled_from(VERBS))
+    return st.builds(lambda seq, v, u: {"seq": [fix200(s) for s in seq], "verb": v, "uris": u},
+                     st.lists(spec, min_size=1, max_size=7), st.sampled_from(VERBS), st.integers(0, 3))
 
 
 def run(h):
@@ -259,7 +261,7 @@ def run(h):
     items = []
     for idx, (pre, t) in enumerate(seqs):
         seq = [TRANSIENT[i] for i in pre] + ([TERMINAL[t]] if t is not None else [])
-        items.append({"seq": seq, "verb": VERBS[idx % 4]})
+        items.append({"seq": seq, "verb": VERBS[idx % 4], "uris": (idx // 4) % 4})
     h.run_enum(items, _prop, shards=16)
     h.coverage_extra["alphabet_sequences"] = len(items)
     h.run_given(gen_specs, _prop, h.n(600, 6000), shards=4 if h.quick else 16, name="bodies")
